@@ -48,6 +48,17 @@ CLAIMED.update({
               "validated by TLC against exact-rational Python numerics (Values.tla).", "DESIGN.md section 5 C13"),
 })
 
+CLAIMED["C07"] = dict(
+    category="model_checking",
+    text="TLC checks the lifecycle machine (required: pristine at every apply; the as-implemented instantiation yields the shortest leaking histories) and enumerates "
+         "every history of operations up to the bound; each is replayed with real executors in a process forked from a pristine parent, then five probe queries are "
+         "translated and TLC requires each probe's normalised package to equal its fresh-process package.",
+    design_ref="DESIGN.md section 5 C07, section 2.6",
+    note="Histories up to length 2 (quick, exhaustive: 2 071) / 3 (thorough, sampled beyond the cap) over 45 operations; five probes sensitive to method types, enums, "
+         "blocks, extended metadata, other backend; comparison after renaming generated identifiers.",
+    technique="TLA+ spec Lifecycle + TLC history enumeration, replay in forked real processes, TLC trace validation (LifecycleTrace, memo form)",
+)
+
 PENDING = "check not built yet in this round (planned, see DESIGN.md section 11); not claimed until its machinery exists"
 
 
